@@ -108,6 +108,10 @@ fn read_once(asset: &[u8], sidecar: Option<&[u8]>) -> ReadRes {
             out.outcome = "ok".into();
             out.state = sdk::state_name(reader.validation_state()).to_string();
             out.manifests = reader.manifests().len() as u64;
+            if std::env::var("VERIF_C19_JSON").is_ok() {
+                // experiment switch (not part of the verdict): also render the reports
+                out.detail = format!("json={} detailed={}", reader.json().len(), reader.detailed_json().len());
+            }
             if let Some(res) = reader.validation_results() {
                 let mut n = 0u64;
                 let mut fails = BTreeSet::new();
